@@ -998,6 +998,7 @@ func genHeartbeat(outDir string) (string, error) {
 	loopExits, refreshOnTick, counterAtomic, storeLocked := false, false, false, false
 	thresholdMs, cutMs := 0, 0
 	pacing, pacingWhy := 2, "no goroutine function"
+	stampSource, stampWhy := 2, "no refresh case found in the heartbeat goroutine"
 	if g := startIn.spawned; g != nil {
 		var params []string
 		if g.Type.Params != nil {
@@ -1067,6 +1068,7 @@ func genHeartbeat(outDir string) (string, error) {
 							continue
 						}
 						counterAtomic = drawAt >= 0
+						stampSource, stampWhy = hbStampSource(funcs, typ, g, cc.Comm, cc.Body)
 						refreshOnTick = drawAt >= 0 && storeAt > drawAt
 					}
 				}
@@ -1136,6 +1138,9 @@ func genHeartbeat(outDir string) (string, error) {
 	if pacing == 1 {
 		note("the refresh case of the heartbeat goroutine is paced by a timer armed anew in every iteration: %s", pacingWhy)
 	}
+	if stampSource == 1 {
+		note("the timestamp of a refresh is not read from the clock inside the refresh: %s", stampWhy)
+	}
 	if thresholdMs == 0 {
 		note("period rule `if d > K { d -= K' }` not found in the heartbeat goroutine")
 	}
@@ -1196,11 +1201,13 @@ func genHeartbeat(outDir string) (string, error) {
 	sb.WriteString(fmt.Sprintf("/-- period rule: `if d > thresholdMs { d -= cutMs }` -/\ndef thresholdMs : Nat := %d\ndef cutMs : Nat := %d\n", thresholdMs, cutMs))
 	sb.WriteString("/-- what paces the loop: 0 = one ticker created before the loop, 1 = a timer / ticker / time.After created or re-armed\n    in every iteration, 2 = not recognised -/\n")
 	sb.WriteString(fmt.Sprintf("def pacing : Nat := %d\ndef pacingWhy : String := %s\n", pacing, strconv.Quote(pacingWhy)))
+	sb.WriteString("/-- where the reading formatted into the data of a refresh comes from: 0 = the clock read (time.Now) inside the refresh,\n    after the tick was received, 1 = the value received from the ticker's channel / a reading taken before the tick was\n    received / carried over from an earlier iteration, 2 = not recognised -/\n")
+	sb.WriteString(fmt.Sprintf("def stampSource : Nat := %d\ndef stampWhy : String := %s\n", stampSource, strconv.Quote(stampWhy)))
 	sb.WriteString("def notes : List String := [" + strings.Join(qn, ", ") + "]\n\n")
 	sb.WriteString("end Spine.Generated.Heartbeat\n")
 	if err := writeFile(outDir, "Heartbeat.lean", sb.String()); err != nil {
 		return "", err
 	}
-	return fmt.Sprintf("manager %s, mutex %q: startOneSection=%v stopOneSection=%v sameMutex=%v closeGuarded=%v startOrder=%v spawnGetsChannel=%v loopExitsOnStop=%v refresh=%v period %d/%d, %d note(s)",
-		typ, mStart, startOne, stopOne, sameMutex, closeGuarded, startOrder, spawnGetsChannel, loopExits, refreshOnTick, thresholdMs, cutMs, len(notes)), nil
+	return fmt.Sprintf("manager %s, mutex %q: startOneSection=%v stopOneSection=%v sameMutex=%v closeGuarded=%v startOrder=%v spawnGetsChannel=%v loopExitsOnStop=%v refresh=%v period %d/%d stampSource=%d, %d note(s)",
+		typ, mStart, startOne, stopOne, sameMutex, closeGuarded, startOrder, spawnGetsChannel, loopExits, refreshOnTick, thresholdMs, cutMs, stampSource, len(notes)), nil
 }
